@@ -8,7 +8,8 @@
          frames ::= - | <netfn>:<cmd>:<hex>,…                       -> <hex>,<hex>,…
     get  <store r|d> <v> <id> <res|->      get_repository_sdr / get_device_sdr on the initial device
     list <store r|d> <v> <fuel>            get_*_sdr_list / *_entries
-         v ::= <fallThrough 0|1><repoRenew r|d><devRenew r|d>  (e.g. 0rd = as repaired)  |  src (as read from the source)
+         v ::= <fallThrough 0|1><repoRenew r|d><devRenew r|d><staleRes 0|1>  (0rd0 = intended, 0rd1 = renewed id
+               dropped, 1dd1 = pinned 816fdee)  |  src (as read from the source)
          -> <outcome> | <trace>        outcome ::= ok <next> <hex> | ok <hex>,<hex>,… | <error tag>
                                        trace ::= - | <netfn>:<cmd>:<hex>><hex>,…
     consts                   generated constants: hdrLen dataRetry maxReqLen reqLenDec cantReturn lastId
@@ -47,9 +48,10 @@ def parseStore (s : String) : Option Store :=
 def parseVariant (s : String) : Option Variant :=
   if s == "src" then some PyIpmi.Gen.Loops11.variantRead else
   match s.toList with
-  | [f, a, b] =>
+  | [f, a, b, g] =>
     match parseStore (String.ofList [a]), parseStore (String.ofList [b]) with
-    | some ra, some rb => if f == '0' then some ⟨false, ra, rb⟩ else if f == '1' then some ⟨true, ra, rb⟩ else none
+    | some ra, some rb =>
+      if (f == '0' || f == '1') && (g == '0' || g == '1') then some ⟨f == '1', ra, rb, g == '1'⟩ else none
     | _, _ => none
   | _ => none
 
@@ -97,7 +99,7 @@ def handle (s : St) (line : String) : St × String :=
     let v := PyIpmi.Gen.Loops11.variantRead
     (s, " ".intercalate ([XK11.hdrLen, XK11.dataRetry, XK11.maxReqLen, XK11.reqLenDec, XK11.cantReturn, XK11.lastId,
       K11.ccOk, K11.chunkRetryDefault, K11.chunkRenew, K11.chunkRetry1, K11.chunkRetry2].map toString)
-      ++ s!" {if v.fallThrough then 1 else 0}{showStore v.repoRenew}{showStore v.devRenew}")
+      ++ s!" {if v.fallThrough then 1 else 0}{showStore v.repoRenew}{showStore v.devRenew}{if v.staleRes then 1 else 0}")
   | ["cfg", repo, dev, limit, strict, cancels, transients, r0, d0] =>
     match parseRecs repo, parseRecs dev, limit.toNat?, strict.toNat?, parseNatList cancels, parsePairs transients,
       r0.toNat?, d0.toNat? with
